@@ -946,6 +946,25 @@ def m_getattr(i, args, kw, st, node):
 
 
 def m_hasattr(i, args, kw, st, node):
+    if len(args) == 2 and isinstance(args[1], str) and isinstance(args[0], AMod) and args[0].mod is not None:
+        # a module of the repository: its top-level names are known
+        if i.module_symbol(args[0].mod, args[1]) is not None:
+            return True
+        if (args[0].name + "." + args[1]) in i.repo.modules:
+            return True
+        m = args[0].mod
+        tops = set()
+        for n in m.tree.body:
+            for t in ast.walk(n) if isinstance(n, (ast.If, ast.Try)) else [n]:
+                if isinstance(t, (ast.FunctionDef, ast.ClassDef)):
+                    tops.add(t.name)
+                elif isinstance(t, ast.Assign):
+                    tops.update(x.id for x in t.targets if isinstance(x, ast.Name))
+                elif isinstance(t, (ast.Import, ast.ImportFrom)):
+                    tops.update((a.asname or a.name).split(".")[0] for a in t.names)
+        if any(isinstance(n, ast.ImportFrom) and any(a.name == "*" for a in n.names) for n in m.tree.body):
+            return Unknown("bool")
+        return args[1] in tops
     if len(args) == 2 and isinstance(args[1], str) and isinstance(args[0], AObj):
         if args[1] in st.heap.get(args[0].ident, {}):
             return True
